@@ -43,7 +43,7 @@ Print Assumptions C03_protocol_versions.
     and the shape of the reordered (broken) descent, which is rejected *)
 Example C03_protocol_nonvacuous :
   let r n := PRLock n true 0%Z in let c n := PCheck n true 0%Z in
-  op_ok [r 0; PLoad 0; c 0; r 5; c 0; PLoad 5; PLoad 5; r 7; c 5; c 7] = true /\
+  op_ok [r 0; PLoad 0; c 0; r 5; c 0; PLoad 5; PLoad 5; c 5; r 7; c 5; c 7] = true /\
   op_ok [r 0; PLoad 0; c 0; r 5; c 0; PLoad 5; PLoad 5; c 5; r 7; c 7] = false /\
   op_ok [r 0; PLoad 0; c 0; r 5; c 0; PLoad 5; PLoad 5] = false /\
   scan_ok [PRLock 0 true 8%Z; PRLock 5 true 4%Z; PCheck 0 true 8%Z; PCheck 5 true 8%Z] = false.
@@ -62,5 +62,25 @@ Example C03_protocol_scan_nonvacuous :
   let r n := PRLock n true 0%Z in let c n := PCheck n true 0%Z in
   scan_ok [r 0; PLoad 0; c 0; r 5; PLoad 5; PLoad 5; c 5; r 7; c 7] = true /\
   scan_ok [r 0; PLoad 0; c 0; r 5; PLoad 5; PLoad 5; r 7; c 7] = false /\
-  scan_ok [r 0; PLoad 0; c 0; r 5; PLoad 5; PLoad 5; r 7; PCheck 7 false 0%Z] = true.
+  scan_ok [r 0; PLoad 0; c 0; r 5; PLoad 5; PLoad 5; PCheck 5 false 0%Z; r 0] = true.
+Proof. vm_compute. repeat split; reflexivity. Qed.
+
+(** R6 (added after the round-3 seed C04/7, a dropped "check() before acting on
+    the child" in the iterator's left-most descent): whenever a node other
+    than the root pointer lock is read-locked in an accepted operation / scan,
+    no load from ANOTHER node is still waiting for its validation *)
+Theorem C03_protocol_pointer_validated : forall l ho pending a c ok w b,
+  l = a ++ PRLock c ok w :: b -> ptr_validated ho pending l = true -> beq c root_blk = false ->
+  exists ho' pending', ptr_validated ho' pending' (PRLock c ok w :: b) = true /\
+     (pending' = None \/ pending' = Some c).
+Proof. exact ptr_validated_app_rlock. Qed.
+Print Assumptions C03_protocol_pointer_validated.
+
+Example C03_protocol_pointer_nonvacuous :
+  let r n := PRLock n true 0%Z in let c n := PCheck n true 0%Z in
+  (* try_get: root pointer loaded, checked, then the node locked; child pointer loaded, node checked, child locked *)
+  op_ok [r 0; PLoad 0; c 0; r 5; c 0; PLoad 5; PLoad 5; c 5; r 7; c 5; c 7] = true /\
+  (* the check between the load of the child pointer and the lock of the child is missing *)
+  op_ok [r 0; PLoad 0; c 0; r 5; c 0; PLoad 5; PLoad 5; r 7; c 5; c 7] = false /\
+  scan_ok [r 0; PLoad 0; c 0; r 5; c 0; PLoad 5; r 7; c 5; c 7] = false.
 Proof. vm_compute. repeat split; reflexivity. Qed.
